@@ -96,6 +96,8 @@ pub fn structural(a: &Authentic, other: &Authentic) -> Vec<(String, Vec<u8>)> {
     { let mut e = recs.clone(); let last = n - 1; let mut r = recs[last][..32.min(recs[last].len())].to_vec(); r[12..16].copy_from_slice(&0u32.to_be_bytes()); e[last] = r; v.push(("last-len0-cut".into(), join(&e))); }
     // early final flag: truncate after record i and set its flag (AD mismatch must catch it)
     for i in 0..n.saturating_sub(1) { let mut e: Vec<Vec<u8>> = recs[..=i].to_vec(); e[i] = with_header(&recs[i], None, Some(1)); v.push((format!("earlyfinal{}", i), join(&e))); }
+    // the same with a flag value that is neither 0 nor 1 (a decryptor that tests `flag != 0`, or only the low bit, or only for equality with 0)
+    for i in 0..n.saturating_sub(1) { for l in [2u32, 3, 0x100, 0x0100_0000, 0x8000_0000, 0x8000_0001, 0xffff_ffff] { let mut e: Vec<Vec<u8>> = recs[..=i].to_vec(); e[i] = with_header(&recs[i], None, Some(l)); v.push((format!("earlyfinal{}:flag={:x}", i, l), join(&e))); } }
     // continuation after the final record
     { let mut e = recs.clone(); let last = n - 1; e[last] = with_header(&recs[last], None, Some(0)); e.push(with_header(&recs[last], Some(n as u64), Some(1))); v.push(("extend-with-copy".into(), join(&e))); }
     for k in 1..=3usize { let mut f = a.file.clone(); f.extend(std::iter::repeat(0x5a).take(k)); v.push((format!("append{}", k), f)); }
